@@ -207,9 +207,15 @@ def first_effect_call(node):
     if isinstance(node, ast.BinOp):
         if _has_effect(node.left):
             return first_effect_call(node.left)
-        return None      # the operator itself may have an effect before the right operand's call: not hoisted past it
+        # both operands are evaluated (left, then right) before the operator is applied: with an effect-free left
+        # operand the first effect of the right one is the first effect of the whole
+        return first_effect_call(node.right) if _has_effect(node.right) else None
     if isinstance(node, ast.Compare):
-        return first_effect_call(node.left) if _has_effect(node.left) else None
+        if _has_effect(node.left):
+            return first_effect_call(node.left)
+        if len(node.comparators) == 1 and _has_effect(node.comparators[0]):
+            return first_effect_call(node.comparators[0])
+        return None
     if isinstance(node, ast.BoolOp):
         return first_effect_call(node.values[0]) if _has_effect(node.values[0]) else None
     if isinstance(node, ast.UnaryOp):
